@@ -35,11 +35,14 @@ theorem pp_board_call (hf : PbnRegexFacts) (hne : PbnSubNonempty) (f : Nat) (st 
       encGame, List.map_nil] at hl
     rw [callF_def]
     simp only [m_PbnParser_parse_board, bindParams, Option.map, encPbnParser, parseBoard]
-    have hc := pp_comp_pieces
+    have hcp : compF (mkRec P (f + 17)) [(K.self, encPbnParser st cl cb), (n_string, .str st.buffer.reverse.flatten)]
+        n_m none pbBody (builtinF.go st.buffer.reverse.flatten n__Match n_texts 0 ms)
+        = .ok ((subPieces st.buffer.reverse.flatten 0 ms).map Val.str) :=
+      pp_comp_pieces (f + 4) _ _ ms 0 (hne _ ms hfi)
+    simp only [pbBody, m_PbnParser_parse_board, List.getD_cons_succ, List.getD_cons_zero, encPbnParser] at hcp
     ppsimp [pp_join, pp_mth_vos, pp_vos_call, pp_subPieces_builtin _ _ ms hfi, iterItems_tuple,
-      pp_comp_pieces _ _ _ ms 0 (hne _ ms hfi), pp_subPieces_flatten, hs, pp_mth_tag, pp_tag_call,
+      hcp, pp_subPieces_flatten, hs, pp_mth_tag, pp_tag_call,
       pp_findall_builtin hf, hl, List.foldl_nil, List.zip_nil_left, List.map_nil]
-    trace_state
-    sorry
+    rfl
 
 end Bridge.Translated
